@@ -16,6 +16,7 @@ enable / disable any number of times; plug-ins, serializer and storage raising o
 import ast
 
 from ..report import Result, Finding
+from ..loader import norm, AnalysisError, walk_own
 from . import recmodel as rm
 
 
@@ -171,6 +172,28 @@ def run(ctx):
                         'with recording disabled the operation decorator must be a pure pass-through: it must neither touch the cassette nor '
                         'evaluate the call\'s arguments (a call without positional arguments would fail in the decorator instead of running)',
                         witness=dom.path_to(n, s), entry=cl.qualname, exit=rm.exit_kind(n)))
+    # ---- C04.j a decorated property is called through the descriptor protocol (`prop.__get__`), which is what an attribute access does:
+    # calling the raw getter (`fget`) bypasses a property subclass that overrides __get__ (compute-once / lazy properties)
+    cj4 = res.clause('C04.j', 'R-AGREE', 'decorated properties are invoked through __get__ (the attribute-access protocol), not through fget', floor=1)
+    unwraps = []
+    for m_ in roles.cls.methods.values():
+        for fn_ in [x for x in ast.walk(m_.node) if isinstance(x, ast.FunctionDef)]:
+            tests_property = any(isinstance(x, ast.Call) and isinstance(x.func, ast.Name) and x.func.id == 'isinstance' and len(x.args) == 2 and
+                                 isinstance(x.args[1], ast.Name) and x.args[1].id == 'property' for x in walk_own(fn_))
+            if not tests_property:
+                continue
+            for n in walk_own(fn_):
+                if isinstance(n, ast.Assign) and len(n.targets) == 1 and isinstance(n.targets[0], ast.Name) and isinstance(n.value, ast.Attribute) and \
+                        isinstance(n.value.value, ast.Name) and n.value.value.id == n.targets[0].id:
+                    unwraps.append((m_, n.value))
+    badu = [(m_, a) for m_, a in unwraps if a.attr != '__get__']
+    cj4.instance('%d property unwrap(s) in the decorators, all through __get__' % len(unwraps), roles.cls.name, bool(unwraps) and not badu)
+    cj4.evaluations += len(unwraps)
+    for m_, a in badu[:1]:
+        res.add(Finding('C04', 'C04.j', 'R-AGREE', m_.file, m_.qualname, a.lineno, norm(a),
+                        'a decorated property is invoked as `%s`: a property subclass that overrides __get__ (lazy / cached property) no longer gets to '
+                        'act, so with the decorator in place the getter body runs on every access and hands out a different object than the undecorated '
+                        'attribute would' % norm(a)))
     # ---- C04.i the user's own post-operation callback runs with the recording detached: a fault of the recorder inside it (a discard
     # triggered by a call the callback makes) cannot hit the recording that is being finished and surface in the operation
     rm.extractor_runs_idle_clause(ctx, res, 'C04', 'C04.i')
